@@ -1,6 +1,7 @@
-\* the property AS STATED over the full small domain (repeated list elements, CumulativeFeeUsed of length 1, names that
-\* contain the separator).  Expected NOT to come out clean for the code as it is: every counterexample is a hypothesis
-\* that the harness replays on the real code (run with -continue to see all of them).
+\* the list commitment AS THE PROPERTY STATES IT (a root denotes exactly one list).  Expected NOT to come out clean: the
+\* padding rule of the merkle tree (kept as coded - it cannot change without a hardfork) gives <<a,b,c>> and <<a,b,c,c>>
+\* the same root.  Not run by the check; the harness reports the collisions found on the real code (open finding
+\* C19-merkle-padding-root-not-binding); the node drops bodies that repeat a transaction (DistinctElementsBind is what it relies on).
 SPECIFICATION Spec
 CONSTANTS
   MaxList = 4
@@ -12,5 +13,5 @@ CONSTANTS
   NameChars = {0, 1}
   MaxName = 2
 VIEW view
-INVARIANTS TypeOK Binding SignExcludesOnlySign StoreCoversCommitment ListBinding ReceiptsRoundTrip ChainIdRoundTrip ChainIdBinding
+INVARIANTS TypeOK ListBinding
 CHECK_DEADLOCK FALSE
